@@ -138,6 +138,20 @@ def check_convert(A, rep):
             rep.ok("C16.b", f"C16.b {func.qualname}: containers are converted by constructing a new node of the bucket from the data")
         else:
             rep.fail("C16.b", norm_key("C16.b", func.qualname), f"{func.qualname} does not return a newly constructed node for container data", [], g.label)
+        # a bare return of the argument is only allowed on the non-collection branch
+        noncoll = [n.id for n in live(g) if n.kind == "arm" and n["arm"] is False and any(x.kind == "call" and x.args[0] == "get_type" and x.args[1] is not None and x.args[1].kind == "global" and "collection" in str(x.args[1].args[1]).lower() for x in g.nodes[n["branch"]]["cond"].walk())]
+        coll_arms = [n.id for n in live(g) if n.kind == "arm" and n["arm"] is True and n["branch"] in {g.nodes[a]["branch"] for a in noncoll}]
+        for r in [n for n in live(g) if n.kind == "ret" and len(n.stack) == 1]:
+            v = r["value"]
+            alts = v.args if v.kind == "phi" else (v,)
+            if any(a.kind == "param" for a in alts):
+                w = g.must_pass(g.entry, [r.id], noncoll) if noncoll else [g.entry, r.id]
+                if w is not None:
+                    rep.fail("C16.b", norm_key("C16.b", func.qualname, r.stmt),
+                             f"{func.qualname}: `{r.stmt}` hands back the caller's object itself for data that may be a collection (e.g. an already synced node): it is stored without being copied / re-parented",
+                             g.witness(w), g.label)
+                else:
+                    rep.ok("C16.b")
         novalidate = all(dict(n["kwargs"]).get("_validate") == Val("const", False) for n in good)
         if not novalidate:
             rep.undecided_note("C16.b", "conversion re-validates (performance only)")
